@@ -10,6 +10,7 @@ import (
 	"os"
 	"path/filepath"
 	"sync"
+	"sync/atomic"
 	"time"
 
 	"github.com/golang/snappy"
@@ -179,7 +180,7 @@ func (CheckpointEngine) Generate(r *core.Rand, tier core.Tier) *core.Scenario {
 		case 2:
 			op = CPOp{K: "reopen"}
 		case 3:
-			op = CPOp{K: "concurrent", Idx: r.Intn(1 << 16), Idx2: r.Intn(1 << 16), At: []string{"checkpoint.RestoreChunk.beforeImport", "checkpoint.RestoreChunk.afterImport"}[r.Intn(2)]}
+			op = CPOp{K: "concurrent", Idx: r.Intn(1 << 16), Idx2: r.Intn(1 << 16), At: []string{"checkpoint.RestoreChunk.beforeImport", "checkpoint.RestoreChunk.afterImport", "parallel-lock"}[r.Intn(3)]}
 		}
 		sc.Ops = append(sc.Ops, core.MustJSON(op))
 	}
@@ -756,18 +757,63 @@ func (CheckpointEngine) Execute(sc *core.Scenario, st *core.Stats) (*core.Violat
 				if done[i1] || done[i2] || i1 == i2 {
 					return
 				}
-				var fin2 bool
-				var err2 error
+				var fin1, fin2 bool
+				var err1, err2 error
 				fired := false
-				verifhook.SetHandler(func(name string) {
-					if name == op.At && !fired {
+				parallel := op.At == "parallel-lock" && k.Dst == "pathbadger"
+				at := op.At
+				if op.At == "parallel-lock" && !parallel {
+					at = "checkpoint.RestoreChunk.beforeImport" // (the backend has no insert lock to wait for)
+				}
+				if parallel {
+					// A second caller on a goroutine of its own, as the storage worker's parallel chunk
+					// fetchers do: it is started while the first caller's batch holds the multipart
+					// insert lock (just acquired, nothing imported yet) and runs until it
+					// is about to wait for that lock -- it has read whatever a batch reads before the
+					// wait. Then the first caller commits and releases the lock, and the second caller
+					// proceeds. The lock fixes the order of the two imports; only the two callers'
+					// bookkeeping after their imports overlaps, and nothing is logged from there.
+					var stage atomic.Int32
+					atLock := make(chan struct{}, 1)
+					done2 := make(chan struct{})
+					verifhook.SetHandler(func(name string) {
+						switch {
+						case name == "pathbadger.NewBatch.afterMultipartLock" && stage.CompareAndSwap(0, 1):
+							go func() {
+								defer close(done2)
+								defer func() {
+									if p := recover(); p != nil {
+										err2 = fmt.Errorf("panic in the second caller: %v", p)
+									}
+								}()
+								fin2, err2 = restoreOne(i2, chunks[i2], meta)
+							}()
+							select {
+							case <-atLock:
+							case <-done2:
+							}
+						case name == "pathbadger.NewBatch.beforeMultipartLock" && stage.CompareAndSwap(1, 2):
+							atLock <- struct{}{}
+						}
+					})
+					fin1, err1 = restoreOne(i1, chunks[i1], meta)
+					if stage.Load() > 0 {
 						fired = true
-						verifhook.SetHandler(nil)
-						fin2, err2 = restoreOne(i2, chunks[i2], meta)
+						<-done2
+						st.Inc("probe.second_caller_waited_for_insert_lock")
 					}
-				})
-				fin1, err1 := restoreOne(i1, chunks[i1], meta)
-				verifhook.SetHandler(nil)
+					verifhook.SetHandler(nil)
+				} else {
+					verifhook.SetHandler(func(name string) {
+						if name == at && !fired {
+							fired = true
+							verifhook.SetHandler(nil)
+							fin2, err2 = restoreOne(i2, chunks[i2], meta)
+						}
+					})
+					fin1, err1 = restoreOne(i1, chunks[i1], meta)
+					verifhook.SetHandler(nil)
+				}
 				st.Event("concurrent %d,%d at=%s err=%v,%v", i1, i2, op.At, err1 != nil, err2 != nil)
 				if !fired && err1 != nil {
 					// The first call was refused before it reached the hook: an honest chunk rejected.
@@ -775,11 +821,15 @@ func (CheckpointEngine) Execute(sc *core.Scenario, st *core.Stats) (*core.Violat
 					return
 				}
 				if !fired {
-					core.Harnessf("checkpoint: hook %s did not fire", op.At)
+					core.Harnessf("checkpoint: hook %s did not fire", at)
 				}
 				interleaved++
 				st.Inc("probe.interleaved_restore_calls")
-				if fin2 {
+				if fin2 && fin1 {
+					v = cpViol("restore-done-flag", fmt.Sprintf("step %d: both of two overlapping RestoreChunk calls (%d, %d) reported the restore complete", stepIdx, i1, i2))
+					return
+				}
+				if fin2 && !parallel {
 					// The inner call returned while the outer call's chunk was still in flight (parked
 					// at the hook, not yet marked restored): reporting completion now makes callers
 					// finalize a restore that is still importing.
